@@ -1211,26 +1211,19 @@ error:
  **********************************************************************/
 
 /*
- * parse_and_descend: parse the expression and descend down the tree
- *   @parser:  address of caller-allocated parser state structure
+ * descend: descend down the tree following a parsed expression
+ *   @parser:  address of parser state structure filled in by parse
  *   @rootptr: address of property data root
  *   @set:     force the tree to conform to the indicated expression
- *   @format:  printf-like format string forming the property expression
- *   @ap       variable argument pointer
+ *
+ *   On error, frees the parser.
  */
-static vnaproperty_t **parse_and_descend(parser_t *parser,
-	vnaproperty_t **rootptr, bool set, const char *format, va_list ap)
+static vnaproperty_t **descend(parser_t *parser, vnaproperty_t **rootptr,
+	bool set)
 {
     vnaproperty_t **anchor = rootptr;
     vnaproperty_t *node = *anchor;
     vnaproperty_t *collection = NULL;
-
-    /*
-     * Parse the expression.
-     */
-    if (parse(parser, format, ap) == -1) {
-	return NULL;
-    }
 
     /*
      * Following the expression list, walk down the tree.
@@ -1374,6 +1367,24 @@ error:
 }
 
 /*
+ * parse_and_descend: parse the expression and descend down the tree
+ *   @parser:  address of caller-allocated parser state structure
+ *   @rootptr: address of property data root
+ *   @format:  printf-like format string forming the property expression
+ *   @ap       variable argument pointer
+ *
+ *   Doesn't modify the tree.
+ */
+static vnaproperty_t **parse_and_descend(parser_t *parser,
+	vnaproperty_t **rootptr, const char *format, va_list ap)
+{
+    if (parse(parser, format, ap) == -1) {
+	return NULL;
+    }
+    return descend(parser, rootptr, /*set*/false);
+}
+
+/*
  * get_node: parse the expression and return the indicated node
  *   @root:   property data root (can be NULL)
  *   @format: printf-like format string forming the property expression
@@ -1390,7 +1401,7 @@ static const vnaproperty_t *get_node(const vnaproperty_t *root,
      * Parse the expression and descend to the requested node.
      */
     if ((anchor = parse_and_descend(&parser, (vnaproperty_t **)&root,
-		    /*set*/false, format, ap)) == NULL) {
+		    format, ap)) == NULL) {
 	return NULL;
     }
 
@@ -1599,15 +1610,17 @@ int vnaproperty_vset(vnaproperty_t **rootptr, const char *format, va_list ap)
     scanner_t *scanner = &parser.prs_scn;
     vnaproperty_t **anchor;
     vnaproperty_t *value = NULL;
-    int rv = -1;
 
-    if ((anchor = parse_and_descend(&parser, rootptr, /*set*/true,
-		    format, ap)) == NULL) {
+    /*
+     * Parse the expression.
+     */
+    if (parse(&parser, format, ap) == -1) {
 	return -1;
     }
 
     /*
-     * Make sure we're not trying to assign to a map or list.
+     * Before changing the tree, make sure we're not trying to
+     * assign to a map or list.
      */
     switch (parser.prs_tail->ex_type) {
     case E_MAP_ELEMENT:
@@ -1621,7 +1634,7 @@ int vnaproperty_vset(vnaproperty_t **rootptr, const char *format, va_list ap)
     case E_LIST:
     default:
 	errno = EINVAL;
-	goto out;
+	goto error;
     }
 
     /*
@@ -1633,7 +1646,7 @@ int vnaproperty_vset(vnaproperty_t **rootptr, const char *format, va_list ap)
     case T_ASSIGN:
 	value = scalar_alloc(scanner->scn_position);
 	if (value == NULL) {
-	    goto out;
+	    goto error;
 	}
 	break;
 
@@ -1642,7 +1655,16 @@ int vnaproperty_vset(vnaproperty_t **rootptr, const char *format, va_list ap)
 
     default:
 	errno = EINVAL;
-	goto out;
+	goto error;
+    }
+
+    /*
+     * Descend to the requested node, making the tree conform to
+     * the expression.
+     */
+    if ((anchor = descend(&parser, rootptr, /*set*/true)) == NULL) {
+	vnaproperty_free(value);
+	return -1;
     }
 
     /*
@@ -1650,11 +1672,12 @@ int vnaproperty_vset(vnaproperty_t **rootptr, const char *format, va_list ap)
      */
     vnaproperty_free(*anchor);
     *anchor = value;
-    rv = 0;
-
-out:
     parser_free(&parser);
-    return rv;
+    return 0;
+
+error:
+    parser_free(&parser);
+    return -1;
 }
 
 /*
@@ -1675,7 +1698,7 @@ int vnaproperty_vdelete(vnaproperty_t **rootptr, const char *format,
     /*
      * Parse the expression and descend to the requested node.
      */
-    if ((anchor = parse_and_descend(&parser, rootptr, /*set*/false,
+    if ((anchor = parse_and_descend(&parser, rootptr,
 		    format, ap)) == NULL) {
 	return -1;
     }
@@ -1730,7 +1753,7 @@ vnaproperty_t *vnaproperty_vget_subtree(const vnaproperty_t *root,
     vnaproperty_t *result = NULL;
 
     if ((anchor = parse_and_descend(&parser, (vnaproperty_t **)&root,
-		    /*set*/false, format, ap)) == NULL) {
+		    format, ap)) == NULL) {
 	return NULL;
     }
 
@@ -1761,21 +1784,30 @@ vnaproperty_t **vnaproperty_vset_subtree(vnaproperty_t **rootptr,
     scanner_t *scanner = &parser.prs_scn;
     vnaproperty_t **anchor;
 
-    if ((anchor = parse_and_descend(&parser, rootptr,
-		    /*set*/true, format, ap)) == NULL) {
+    /*
+     * Parse the expression.
+     */
+    if (parse(&parser, format, ap) == -1) {
 	return NULL;
     }
 
     /*
-     * Make sure there are no unexpected trailing tokens.
+     * Before changing the tree, make sure there are no unexpected
+     * trailing tokens.
      */
     if (scanner->scn_token != T_EOF) {
 	errno = EINVAL;
-	anchor = NULL;
-	goto out;
+	parser_free(&parser);
+	return NULL;
     }
 
-out:
+    /*
+     * Descend to the requested node, making the tree conform to
+     * the expression.
+     */
+    if ((anchor = descend(&parser, rootptr, /*set*/true)) == NULL) {
+	return NULL;
+    }
     parser_free(&parser);
     return anchor;
 }
